@@ -3,9 +3,10 @@
    entry_points / writable_globals are REGENERATED from /repo's working tree on every run (coq/gen/LockSkeleton.v from the
    clang AST of jitallocator.cpp + jitruntime.cpp, coq/gen/WritableGlobals.v from the static build). *)
 From Coq Require Import String List Bool ZArith.
-From Verif Require Import Jit.JitModel Jit.JitBits Jit.JitBlockProofs Jit.JitProofs Jit.JitWitness Conc.JitConcProofs.
+From Verif Require Import Jit.JitModel Jit.JitBits Jit.JitBlockProofs Jit.JitProofs Jit.JitWitness Conc.JitConcProofs Conc.RefineProofs.
 From Verif Require Import Conc.LockModel Conc.LockProofs Conc.ConcModel Conc.ConcProofs Conc.ProgramProofs Conc.FreshProofs.
-From VerifGen Require Import LockSkeleton WritableGlobals.
+From Verif Require Import Conc.StaticsModel Conc.StaticsProofs.
+From VerifGen Require Import LockSkeleton WritableGlobals StaticsSkeleton.
 Import ListNotations.
 
 (* ---- obligations re-proved over the regenerated skeleton (reflection) *)
@@ -173,3 +174,68 @@ Print Assumptions C11_owned_spans_distinct.
 Theorem C11_concurrent_history_satisfiable : exists st own, conc_reach cfg_f st own /\ map fst own = [1%nat].
 Proof. exact conc_reach_example. Qed.
 Print Assumptions C11_concurrent_history_satisfiable.
+
+(* ---- round 3 *)
+Local Close Scope Z_scope.
+
+(* the first-touch proviso of C11_init_once_published follows from the lock discipline plus object knowledge: thread j read the
+   address of o from a lock-protected pointer cell (tree / list links, pool cursor - all in required_protected, re-checked against
+   the skeleton by C11_skeleton_coverage) before using it, and nobody had seen that address before the object was created *)
+Theorem C11_init_once_published_by_knowledge : forall prot m tr s a i o f v b j v' c,
+  run (init m) tr = Some s -> disciplined prot tr ->
+  tr = a ++ (i, EWr o f v) :: b ++ (j, ERd o f v') :: c -> i <> j ->
+  holds false (proj i a) = true ->
+  (forall k o' f', In (k, ERd o' f' (Z.of_nat o)) a -> prot f' = true -> k = i) ->
+  (exists pre o' f' post, a ++ (i, EWr o f v) :: b = pre ++ (j, ERd o' f' (Z.of_nat o)) :: post /\ prot f' = true) ->
+  exists b1 b2 b3, b = b1 ++ (i, ERel) :: b2 ++ (j, EAcq) :: b3.
+Proof. exact init_once_published_by_knowledge. Qed.
+Print Assumptions C11_init_once_published_by_knowledge.
+
+(* ONE theorem from the cell-level event model to the sequential C09 model: for every concurrent execution of disciplined
+   threads (all critical sections closed), if each critical section executed alone implements the C09 step it is labelled with
+   (seq_refines: the sequential correspondence C09's check establishes) and threads release / shrink only their own spans
+   (conc_ok on the labels), then the abstraction of the final memory IS the state the sequential model reaches by running the
+   labels in the order of the lock acquisitions, it is reachable there, and the C09 invariant holds of it *)
+Theorem C11_concurrent_refines_c09 : forall c prot abs lab is_section m tr s,
+  cfg_ok c ->
+  run (init m) tr = Some s -> disciplined prot tr -> st_owner s = None ->
+  abs m = init_state c ->
+  seq_refines c abs lab is_section ->
+  Forall (fun sec => is_section (fst sec) (snd sec)) (sections None (ser tr)) ->
+  let ops := map (fun sec => (fst sec, lab (fst sec) (snd sec))) (sections None (ser tr)) in
+  conc_ok c (init_state c) [] ops ->
+  abs (st_mem s) = JitModel.run c (init_state c) (map snd ops) /\
+  reach c (abs (st_mem s)) /\ ginv c (abs (st_mem s)) /\ exists own, conc_reach c (abs (st_mem s)) own.
+Proof. exact concurrent_refines_c09. Qed.
+Print Assumptions C11_concurrent_refines_c09.
+
+Theorem C11_refinement_hypotheses_satisfiable :
+  let c := cfg_f in
+  let abs := fun _ : memory => init_state c in
+  let lab := fun (_ : nat) (_ : list ev) => OQuery 0 0 in
+  let is_section := fun (_ : nat) (_ : list ev) => True in
+  let m := fun (_ : nat) (_ : field) => 0%Z in
+  let tr := [(0%nat, EAcq); (0%nat, ETau); (0%nat, ERel)] in
+  cfg_ok c /\ (exists s, run (init m) tr = Some s /\ st_owner s = None) /\ disciplined (fun _ => true) tr /\
+  abs m = init_state c /\ seq_refines c abs lab is_section /\
+  Forall (fun sec => is_section (fst sec) (snd sec)) (sections None (ser tr)) /\
+  conc_ok c (init_state c) [] (map (fun sec => (fst sec, lab (fst sec) (snd sec))) (sections None (ser tr))).
+Proof. exact refine_hyps_sat. Qed.
+Print Assumptions C11_refinement_hypotheses_satisfiable.
+
+(* ---- the process-wide caches (VirtMem::info / large_page_size / hardened_runtime_info / dual-mapping helpers, CpuInfo::host):
+   skeleton of every access to a variable with static storage duration in these functions, regenerated from the clang AST of
+   virtmem.cpp and cpuinfo.cpp.  Every static is a std::atomic, or a listed init-once static that is written only inside
+   `if (!flag)` of its own guard flag *)
+Theorem C11_statics_guarded : vcheck_program static_entry_points = [].
+Proof. exact statics_ok. Qed.
+Print Assumptions C11_statics_guarded.
+
+(* hence, once the host information has been initialised (no guard flag is observed zero any more), these functions write no
+   non-atomic static at all: what remains are atomic operations and reads, which cannot race - the "no shared mutable state
+   behind the API once the host information has been initialised" half of the property, for the caches *)
+Theorem C11_statics_warm_no_writes : forall name s t fl,
+  In (name, s) static_entry_points -> vexec s t fl ->
+  (forall g, ~ In (VZero g) t) -> forall n, ~ In (VWr n) t.
+Proof. exact (fun name s t fl => warm_no_plain_writes static_entry_points name s t fl statics_ok). Qed.
+Print Assumptions C11_statics_warm_no_writes.
